@@ -204,15 +204,38 @@ int main(){
 			os << "cnt=" << cnt << " hv=" << got;
 			if(cnt != k) orc += " !oracle subset-count";
 			// brute force over all k-subsets (n is small)
-			if(n <= 16){
+			if(n <= 12){
 				long long best = 0;
 				for(unsigned long mask = 0; mask < (1ul << n); ++mask){
 					if((std::size_t)__builtin_popcountl(mask) != k) continue;
 					Points R; for(std::size_t i = 0; i != n; ++i) if(mask >> i & 1) R.push_back(P[i]);
 					best = std::max(best, cellHv(R, ref));
 				}
+				os << " best=" << best;
 				if(got < best) orc += " !oracle subset-not-optimal";
+			}else{
+				os << " best=-";
+				// larger sets: the optimum over the k-subsets of the distinct non-dominated points by an own O(n^2 k) recursion
+				Points F;
+				for(std::size_t i = 0; i != n; ++i){
+					bool keep = true;
+					for(std::size_t j = 0; j != n && keep; ++j) if(strictDom(P[j], P[i]) || (j < i && weakDom(P[j], P[i]) && weakDom(P[i], P[j]))) keep = false;
+					if(keep) F.push_back(P[i]);
+				}
+				std::sort(F.begin(), F.end(), [](RealVector const& a, RealVector const& b){ return a(0) < b(0); });
+				std::size_t f = F.size();
+				// best[j][i]: largest area left of x_i... use: A[c][i] = best hv of c points the last (right-most) of which is i
+				std::vector<std::vector<double> > A(k + 1, std::vector<double>(f, -1));
+				for(std::size_t i = 0; i != f; ++i) A[1][i] = (ref(0) - F[i](0)) * (ref(1) - F[i](1));
+				for(std::size_t c = 2; c <= k; ++c) for(std::size_t i = 0; i != f; ++i) for(std::size_t j = 0; j != i; ++j)
+					if(A[c-1][j] >= 0) A[c][i] = std::max(A[c][i], A[c-1][j] + (ref(0) - F[i](0)) * (F[j](1) - F[i](1)));
+				double best = 0;
+				for(std::size_t c = 1; c <= k; ++c) for(std::size_t i = 0; i != f; ++i) best = std::max(best, A[c][i]);
+				if((double)got < best) orc += " !oracle subset-not-optimal";
 			}
+			os << " sel=[";
+			{ bool first = true; for(std::size_t i = 0; i != n; ++i) if(selected[i]){ os << (first ? "" : ",") << i; first = false; } }
+			os << "]";
 		}else{ std::cout << "bad-op\n"; continue; }
 		}catch(std::exception const& e){
 			os.str(""); os << "exception";
